@@ -5564,7 +5564,11 @@ impl<'a, 'graph> Builder<'a, 'graph> {
     let maybe_range = options.maybe_range;
     let maybe_source_phase_referrer = options.maybe_source_phase_referrer;
     let original_specifier = specifier;
-    let specifier = self.graph.redirects.get(specifier).unwrap_or(specifier);
+    // follow the whole chain of known redirects: a slot is only ever stored at
+    // the end of a chain, so stopping after one hop would load (and visit) a
+    // module again every time one of its redirect sources is imported
+    let resolved_specifier = self.graph.resolve(specifier).clone();
+    let specifier = &resolved_specifier;
     if options.is_asset {
       // TODO(nayeemrmn): We need to load the module to validate the actual
       // media type for source-phase-import eligibility. Don't treat
